@@ -25,6 +25,8 @@ import Golib.FailClosed.Stream
 import Golib.FailClosed.Lazy
 import Golib.FailClosed.Reuse
 import Golib.FailClosed.ValueStream
+import Golib.FailClosed.Pooled
+import Golib.FailClosed.ExtraReads
 import Golib.Value.Facts
 import Golib.Layout.IR
 import Golib.Step.Prefix
@@ -353,6 +355,94 @@ theorem lazy_stateless_access_fails {T C : Type} (S : Lazy.Spec T C) (hc : S.cac
 theorem reuse_additive_exception : ¬ Reuse.Resets Reuse.putReader id := Reuse.additive_not_reset
 
 example : Reuse.Resets Reuse.assignReader id := Reuse.assignReader_resets
+
+/-! ### the fixed-width readers no writer reaches (`ReadShortLittle`, `ReadUnsignedShortLittle`,
+    `ReadIntLittle`, `ReadUintLittle`, `ReadUnsignedInt`, `ReadUShort`, `ReadDecimalLen(sz)`) -/
+
+/-- one such read fails exactly when fewer bytes than its width are there; otherwise it consumes
+    exactly its width and its value is a function of those bytes -/
+theorem extra_read_exact (k : Extra.K) (bs : Bytes) :
+    P.run (Extra.rd k) bs =
+      if Extra.width k ≤ bs.length then
+        some (Extra.val k (bs.take (Extra.width k)), bs.drop (Extra.width k)) else none :=
+  Extra.run_rd k bs
+
+/-- programs of them: rejected iff the input is shorter than the sum of the widths (so every strict
+    prefix of an input of exactly that length is rejected), else exactly that many bytes consumed -/
+theorem extra_program_exact (ks : List Extra.K) (bs : Bytes) :
+    P.run (Extra.rdAll ks) bs =
+      if Extra.total ks ≤ bs.length then some (Extra.vals ks bs, bs.drop (Extra.total ks)) else none :=
+  Extra.run_rdAll ks bs
+
+theorem extra_program_prefix_fails (ks : List Extra.K) (bs : Bytes) (h : bs.length < Extra.total ks) :
+    P.run (Extra.rdAll ks) bs = none := Extra.rdAll_short_fails ks bs h
+
+/-- … and what follows the program's bytes is neither read nor changes the values -/
+theorem extra_program_trailing (ks : List Extra.K) (bs r : Bytes) (h : bs.length = Extra.total ks) :
+    P.run (Extra.rdAll ks) (bs ++ r) = (P.run (Extra.rdAll ks) bs).map (fun x => (x.1, x.2 ++ r)) :=
+  Extra.rdAll_append ks bs r h
+
+example : P.run (Extra.rdAll [.shortLE, .uint, .decLen 1, .decLen 0, .decLen 7])
+    [1, 255, 255, 255, 255, 255, 128, 0, 0, 0, 0, 0, 0, 0, 1, 9] = some ([-255, 4294967295, -128, 0, 1], [9]) := by
+  decide
+example : ([1, 2, 3] : Bytes).length < Extra.total [.intLE] := by decide
+
+/-! ### one reader kept for several decodes (pooled / re-pointed sub-stream readers)
+
+    "No read returns bytes that were not present in its input" for a SEQUENCE of decodes in one
+    process.  A decoder that opens a sub-stream builds a new reader over exactly the blob
+    (`io.NewDataInputX(din.ReadBlob())`): the replacing reset.  Tie A: `C04Gen.reader_buffer_set_only_by_constructor`
+    (no function of package io but the constructor stores into a reader's buffer), tie B: the
+    `after` stage (harness/c04/after.go), driver `PH` / `PHV`. -/
+
+/-- with a replacing reset every decode of every history — whatever the reader held at the start,
+    wherever the failed decodes before it stopped (`junk` arbitrary) — is the decode of its own input -/
+theorem pooled_history_is_per_input (p : P α) (junk : Bytes → Bytes) (st : Bytes) (inputs : List Bytes) :
+    Pooled.runHist Pooled.replace p junk st inputs = Pooled.perInput p inputs :=
+  Pooled.replace_history_any_start p junk st inputs
+
+/-- prefix failure at any position of any history: after whatever inputs, failed or not, a strict
+    prefix of a complete encoding is rejected (nothing an earlier decode left behind completes it) -/
+theorem pooled_prefix_fails_in_history (p : P α) (junk : Bytes → Bytes) (st : Bytes)
+    (before after : List Bytes) (q s : Bytes) (v : α) (hs : s ≠ [])
+    (h : P.run p (q ++ s) = some (v, [])) :
+    (Pooled.runHist Pooled.replace p junk st (before ++ q :: after))[before.length]? = some none :=
+  Pooled.replace_prefix_fails_in_history p junk st before after q s v hs h
+
+/-- values: the history of `value.ReadValue` decodes through a kept reader is `Value.decV` per input -/
+theorem pooled_value_history (f : Nat) (junk : Bytes → Bytes) (st : Bytes) (inputs : List Bytes) :
+    Pooled.runHist Pooled.replace (valueP f) junk st inputs =
+      inputs.map (fun inp => (Value.decV f inp).map Prod.fst) := by
+  rw [Pooled.replace_history_any_start]
+  unfold Pooled.perInput
+  congr 1
+  funext inp
+  rw [run_valueP]
+
+/-- an appending reset (`buffer.Write(buf)` "because the previous message was read to its end") is
+    right exactly for histories of complete encodings … -/
+theorem pooled_append_ok_when_drained (p : P α) (junk : Bytes → Bytes) (inputs : List Bytes)
+    (h : ∀ inp ∈ inputs, ∃ v, P.run p inp = some (v, [])) :
+    Pooled.runHist Pooled.appendReset p junk [] inputs = Pooled.perInput p inputs :=
+  Pooled.append_ok_when_drained p junk inputs h
+
+/-- … and not fail-closed otherwise: a rejected 5-byte input, then a 3-byte input, decode to a long
+    made of both (the seeded change C04-r7-3; replayed by the `after` stage's class) -/
+theorem finding_appending_reset :
+    Pooled.runHist Pooled.appendReset Pooled.readLong id [] [[1, 2, 3, 4, 5], [6, 7, 8]]
+        = [none, some 0x0102030405060708] ∧
+    Pooled.perInput Pooled.readLong [[1, 2, 3, 4, 5], [6, 7, 8]] = [none, none] :=
+  Pooled.append_not_fail_closed
+
+example : Pooled.runHist Pooled.replace Pooled.readLong id [9, 9] [[1, 2, 3, 4, 5], [6, 7, 8], [0, 0, 0, 0, 0, 0, 1, 2]]
+    = [none, none, some 258] := by decide
+example : ∀ inp ∈ [[0, 0, 0, 0, 0, 0, 1, 2], [0, 0, 0, 0, 0, 0, 0, 7]], ∃ v, P.run Pooled.readLong inp = some (v, []) := by
+  intro inp h
+  simp at h
+  rcases h with h | h <;> subst h
+  · exact ⟨258, by decide⟩
+  · exact ⟨7, by decide⟩
+example : P.run Pooled.readLong ([0, 0, 0] ++ [0, 0, 0, 1, 2]) = some (258, []) := by decide
 
 /-- the other order (bytes dropped before decoding) is not fail-closed: second access accepts the
     partial table, `Write` re-encodes it -/
